@@ -9,7 +9,7 @@ for d in $dirs; do
   d=${d%/}
   prop=$(jq -r .property $d/meta.json)
   wt=$(mktemp -d /tmp/seeded-XXXXXX)
-  git -C /repo worktree add --detach -q $wt HEAD || { echo "$d: worktree failed"; continue; }
+  git -C /repo worktree add --detach -q $wt ${BASE:-HEAD} || { echo "$d: worktree failed"; continue; }
   if ! git -C $wt apply $PWD/$d/patch.diff 2>/dev/null; then
     echo "$d $prop: PATCH DOES NOT APPLY"
   else
